@@ -74,6 +74,11 @@ def load_one(lit: LineIterator):
         coordinates.append(coor)
         coord_line = next(lit)
     data["atnums"] = np.array(numbers)
-    data["atcoords"] = np.array(coordinates) * angstrom
+    # Coordinates are in angstrom, unless the route section requests atomic units.
+    route_words = route_line.lower().replace("(", " ").replace(")", " ").replace(",", " ").split()
+    in_bohr = any(word in ("units=au", "units=bohr") for word in route_words) or (
+        "units=" in route_line.lower() and any(word in ("au", "bohr") for word in route_words)
+    )
+    data["atcoords"] = np.array(coordinates) * (1.0 if in_bohr else angstrom)
 
     return data
